@@ -112,8 +112,9 @@ pub fn automaton_json(a: &AutomatonDump) -> Value {
         "n": a.n_states,
         "out": out,
         "trans": a.transitions.iter().map(|t| json!([t.0, t.1, t.2])).collect::<Vec<_>>(),
-        "acc": a.accepting.iter().map(|t| json!([t.0, t.1])).collect::<Vec<_>>(),
-        "prio": a.terminal_ids,
+        // token types as the specification knows them (the programs are built with concretised ones)
+        "acc": a.accepting.iter().map(|t| json!([t.0, crate::ttmap::abs(t.1)])).collect::<Vec<_>>(),
+        "prio": a.terminal_ids.iter().map(|t| crate::ttmap::abs(*t)).collect::<Vec<_>>(),
     })
 }
 
@@ -151,7 +152,7 @@ pub fn dump_program(pid: usize, modes: &[RealMode], origin: &str) -> Result<Opti
         parsed.push(ps);
     }
     scnr::verif::minimizer_recording(true);
-    let sm = crate::parse::to_scanner_modes_raw(modes);
+    let sm = crate::parse::to_scanner_modes(modes);
     let built = std::panic::catch_unwind(|| ScannerBuilder::new().add_scanner_modes(&sm).build_uncached());
     let records = scnr::verif::take_minimizer_records();
     scnr::verif::minimizer_recording(false);
@@ -234,10 +235,11 @@ pub fn dump_program(pid: usize, modes: &[RealMode], origin: &str) -> Result<Opti
             "desc": modes[mi].pats.iter().map(|p| p.pattern.clone()).collect::<Vec<_>>()}));
         for (tt, _pos, la_dump) in m.dfa.lookaheads.iter() {
             // the lookahead pattern of the pattern with this token type
+            let tt = &(crate::ttmap::abs(*tt) as usize);
             let src = ps.iter().find(|p| p.1 == *tt && p.2.is_some()).and_then(|p| p.2.as_ref());
             if let Some((_, l)) = src {
                 // a lookahead automaton accepts with terminal id 0 whatever its pattern's type
-                let acc_tt = la_dump.accepting.first().map(|a| a.1).unwrap_or(0);
+                let acc_tt = la_dump.accepting.first().map(|a| crate::ttmap::abs(a.1)).unwrap_or(0);
                 cases.push(json!({"kind": "la", "program": pid, "origin": origin, "mode": mi, "natoms": natoms,
                     "pats": [{"re": l.to_json(), "tt": acc_tt}], "impl": automaton_json(la_dump),
                     "impl0": {"n": 0, "out": [], "trans": [], "acc": [], "prio": []},
@@ -381,6 +383,22 @@ pub fn programs_from(sources: &[String]) -> Vec<(String, Vec<RealMode>)> {
                             }
                         }
                     }
+                }
+            }
+        } else if s == "chains" {
+            // automata that need many refinement rounds in the minimiser, well below the sizes of C17
+            for (k, p) in ["a{600}b", "(ab){300}c", "a{520}", "x[0-9]{530}y|x[0-9]{529}z"].iter().enumerate() {
+                progs.push((format!("chains#{k}"), vec![RealMode { name: "M".into(), trans: vec![],
+                    pats: vec![crate::parse::RealPat { pattern: p.to_string(), tt: 7, la: None }, crate::parse::RealPat { pattern: "c+".into(), tt: 2, la: None }] }]));
+            }
+        } else if s == "congruent" {
+            // token types that agree modulo 2^32 once concretised (5/13, 10/14) on accepting states that
+            // behave alike: anything that keys by a narrowed token type merges them
+            let shapes: [[&str; 4]; 4] = [["a", "b", "cd", "ce+"], ["a", "b", "c", "d"], ["ab", "ac", "b+", "c"], ["x?a", "x?b", "a+b", "b+a"]];
+            for (k, sh) in shapes.iter().enumerate() {
+                for (j, tts) in [[5usize, 13, 13, 5], [13, 5, 10, 14], [10, 14, 5, 13], [14, 10, 14, 10]].iter().enumerate() {
+                    progs.push((format!("congruent#{k}-{j}"), vec![RealMode { name: "M".into(), trans: vec![],
+                        pats: sh.iter().zip(tts.iter()).map(|(p, t)| crate::parse::RealPat { pattern: p.to_string(), tt: *t, la: None }).collect() }]));
                 }
             }
         } else if s == "corpus" {
